@@ -74,7 +74,7 @@ func runBurst(c *BurstCase, active, handled, published *atomic.Int64) *vkit.Outc
 			handled.Add(1)
 			active.Add(-1)
 		}
-		so := h.asyncSeq()
+		so := h.seqOpts()
 		if h.Ctx {
 			eventbus.SubscribeContext(bus, func(_ context.Context, e Ev) { body(e.ID) }, so...)
 		} else {
@@ -97,12 +97,18 @@ func runBurst(c *BurstCase, active, handled, published *atomic.Int64) *vkit.Outc
 			s.mu.Lock()
 			seen := append([]int(nil), s.seen...)
 			s.mu.Unlock()
-			if len(seen) != id {
-				o.Failf("", "burst %d: Wait returned with %d of %d events delivered to Async+Sequential handler %d", r, len(seen), id, i)
+			var want []int
+			for e := 0; e < id; e++ {
+				if c.Handlers[i].takes(e) {
+					want = append(want, e)
+				}
+			}
+			if len(seen) != len(want) {
+				o.Failf("", "burst %d: Wait returned with %d of %d accepted events delivered to Async+Sequential handler %d %+v", r, len(seen), len(want), i, c.Handlers[i])
 				return o
 			}
 			for j, v := range seen {
-				if v != j {
+				if v != want[j] {
 					o.Failf("async-sequential-out-of-order", "burst %d: Async+Sequential handler %d processed event %d at position %d; events were published by one goroutine in order", r, i, v, j)
 					return o
 				}
